@@ -973,11 +973,13 @@ class FileWeaver:
                 raise WeaveError("hint %s in %s: `end stmt` path must address a block" % (c.cid, key))
             cur_lo, cur_hi = lo, hi
             idx = 0
+            lost = None
             while idx < len(path):
                 stmts = self.split_stmts(cur_lo, cur_hi)
                 n, k = path[idx], path[idx + 1]
                 if n < 1 or n > len(stmts):
-                    raise WeaveError("lost anchor: hint %s in %s: block path %s" % (c.cid, key, arg))
+                    lost = "lost anchor: hint %s in %s: block path %s" % (c.cid, key, arg)
+                    break
                 a, b = stmts[n - 1]
                 blocks = []
                 q = a
@@ -991,9 +993,15 @@ class FileWeaver:
                         q = e
                     q += 1
                 if k < 1 or k > len(blocks):
-                    raise WeaveError("lost anchor: hint %s in %s: block path %s" % (c.cid, key, arg))
+                    lost = "lost anchor: hint %s in %s: block path %s" % (c.cid, key, arg)
+                    break
                 cur_lo, cur_hi = blocks[k - 1]
                 idx += 2
+            if lost:
+                if ghost_lets:
+                    raise WeaveError(lost)
+                self.report.setdefault("dropped_hints", []).append("%s/%s: %s" % (key, c.cid, lost))
+                return
             self.add(toks[cur_hi].pos, 0, text, "ghost", marks)
             return
         if where == "end":
@@ -1016,13 +1024,22 @@ class FileWeaver:
                 except WeaveError:
                     self._layout_changed.add(key)
             if a is not None:
-                want = [t.text for t in toks[a:b + 1] if t.sig()][:7]
+                want = [t.text for t in toks[a:b + 1] if t.sig()][:5]
                 fo, fc = self._cur_fn_open, match_close(toks, self._cur_fn_open)
                 sig = [q for q in range(fo + 1, fc) if toks[q].sig()]
                 hits = [sig[i] for i in range(len(sig) - len(want) + 1) if all(toks[sig[i + j]].text == want[j] for j in range(len(want)))]
                 self.baseline_out.setdefault(key, {})[pstr] = {"tokens": want, "occ": hits.index(a) if a in hits else 0, "total": len(hits)}
             else:
-                a, b = self.relocate(lo, hi, key, pstr, c)
+                try:
+                    a, b = self.relocate(lo, hi, key, pstr, c)
+                except WeaveError as e:
+                    if ghost_lets:
+                        raise
+                    # a pure proof hint (no ghost declarations) whose statement vanished: the hint is
+                    # dropped and the function is verified without it (recorded; if the proof then no
+                    # longer goes through, the failed obligations are reported as such)
+                    self.report.setdefault("dropped_hints", []).append("%s/%s: %s" % (key, c.cid, e))
+                    return
             if where == "before":
                 self.add(toks[a].pos, 0, text, "ghost", marks)
             else:
